@@ -203,6 +203,37 @@ def run(ctx):
                 recs.append({'ev': 'jump', 'tag': tag, 'up': fx(up), 'dn': fx(dn), 'up2': fx(up2), 'dn2': fx(dn2), 'b': fx(np.sign(sA.burgers[0] + sA.burgers[2]) * np.array(want)), 'tol': 16})
         except Exception as e:
             ctx.violation('Volterra solution by Miller indices raised %s' % excname(e), repr(e)[:200] + ' ' + tag)
+    # ---- the same problem in a length unit 2^-33 times smaller (Burgers vector and field points of order 1e-10): displacement scales with
+    #      the unit, strain and stress at corresponding points are unchanged (homogeneity of degree -1 in r, linear in b)
+    for cname in ('cubic1', 'isotropic'):
+        try:
+            C = classes[cname]()
+            k_ = 2.0 ** -33
+            b0 = np.array([0.75, 0.0, -0.5])
+            s1, s2 = solve_volterra_dislocation(C, b0), solve_volterra_dislocation(C, b0 * k_)
+            p = np.array([1.7, -2.3, 0.0])
+            nrm = np.abs(s1.stress(p)).max()
+            q = np.array([5.0, 1.0, 0.0])            # the displacement carries a ln(r) term: only differences between two points scale
+            recs.append({'ev': 'covar', 'tag': 'unit_scaling:%s' % cname, 'a': fx(s1.displacement(p) - s1.displacement(q)) + fx(s1.stress(p) / nrm) + fx(s1.burgers),
+                         'b': fx((s2.displacement(p * k_) - s2.displacement(q * k_)) / k_) + fx(s2.stress(p * k_) / nrm) + fx(s2.burgers / k_), 'tol': 16})
+        except Exception as e:
+            ctx.violation('Volterra solution for a Burgers vector of order 1e-10 raised %s' % excname(e), repr(e)[:200] + ' ' + cname)
+    # ---- field points of integer type (python ints, integer arrays): the same fields as at the equal float points ---------------------
+    for cname in ('isotropic', 'cubic2'):
+        try:
+            C = classes[cname]()
+            sl = solve_volterra_dislocation(C, np.array([1.0, 0.0, 0.5]))
+            pf = np.array([[2.0, 1.0, 0.0], [-3.0, 2.0, 0.0], [1.0, -4.0, 0.0]])
+            nrm = np.abs(sl.stress(pf)).max()
+            en = np.abs(sl.strain(pf)).max()
+            for nm, pi_ in (('int64', pf.astype(np.int64)), ('list', pf.astype(int).tolist()), ('int32', pf.astype(np.int32))):
+                recs.append({'ev': 'covar', 'tag': 'integer_points:%s:%s' % (cname, nm),
+                             'a': fx(sl.displacement(pf).ravel()) + fx(sl.stress(pf).ravel() / nrm) + fx(sl.strain(pf).ravel() / en),
+                             'b': fx(np.asarray(sl.displacement(pi_)).ravel()) + fx(np.asarray(sl.stress(pi_)).ravel() / nrm) + fx(np.asarray(sl.strain(pi_)).ravel() / en), 'tol': 16})
+            one = sl.stress(np.array([2, 1, 0]))
+            recs.append({'ev': 'covar', 'tag': 'integer_points:%s:single' % cname, 'a': fx(sl.stress(pf[0]).ravel() / nrm), 'b': fx(np.asarray(one).ravel() / nrm), 'tol': 16})
+        except Exception as e:
+            ctx.violation('Volterra fields at integer-typed points raised %s' % excname(e), repr(e)[:200] + ' ' + cname)
     # ---- isotropic closed form: pi * sigma at integer points is an exact rational -------------------------------------------------
     S14 = 1 << 14
     for (mu, nun, nud, be, bs) in ((30, 1, 4, 1, 0), (30, 1, 4, 0, 1), (44, 1, 3, 1, 1), (26, 3, 10, -1, 2)):
